@@ -359,6 +359,37 @@ theorem inv_coStart (s : State) (c d : Nat) (fut : Bool) (h : Inv s) (hc : s.cur
     · have := h.cur_base; grind
   next => exact h
 
+theorem resumable_iff (s : State) (d : Nat) : resumable s d = true ↔ (s.st d = St.fresh ∨ s.st d = St.yielded) := by
+  simp [resumable]
+
+theorem inv_coGnext (s : State) (c d : Nat) (h : Inv s) (hc : s.cur = some c) : Inv (coGnext s c d) := by
+  obtain ⟨hr, hb, ha⟩ := cur_facts h hc
+  unfold coGnext
+  split
+  next hd =>
+    have hd' := (resumable_iff s d).1 hd
+    refine ⟨⟨?_, ?_, ?_, ?_, ?_, ?_, ?_, ?_, ?_, ?_, ?_⟩, ?_, ?_⟩ <;> dsimp only
+    · exact h.fifo
+    · intro i; have := h.handle_once i; grind [upd_apply]
+    · intro i; have := h.stacked_once i; simp only [List.count_cons] at *; grind [upd_apply]
+    · intro e p hw; have := h.waiter_ok e p hw; grind [upd_apply]
+    · intro i; have := h.once i; simp only [List.count_append] at *; grind
+    · exact h.active_iff
+    · exact h.blocks_prev
+    · exact h.loop_prev
+    · exact h.callmain_block
+    · intro hh; exact absurd hh hb
+    · exact h.idle
+    · intro i; have := h.running_iff i; grind [upd_apply]
+    · have := h.cur_base; grind
+  next => exact h
+
+theorem inv_coGyield (s : State) (c : Nat) (h : Inv s) (hc : s.cur = some c) : Inv (coGyield s c) := by
+  unfold coGyield
+  split
+  · exact inv_settle _ (mid_suspend s c St.yielded h hc (by simp) (by simp) (by simp))
+  · exact h
+
 theorem inv_coCall (s : State) (c d : Nat) (h : Inv s) (hc : s.cur = some c) : Inv (coCall s c d) := by
   obtain ⟨hr, hb, ha⟩ := cur_facts h hc
   unfold coCall
@@ -697,6 +728,50 @@ theorem inv_mainStart (s : State) (d : Nat) (h : Inv s) (hc : s.cur = none) : In
       · simp
   next => exact h
 
+theorem inv_mainGnext (s : State) (d : Nat) (h : Inv s) (hc : s.cur = none) : Inv (mainGnext s d) := by
+  obtain ⟨hb, hcl, hnr, hab⟩ := main_facts h hc
+  unfold mainGnext
+  split
+  next hd =>
+    have hd' := (resumable_iff s d).1 hd
+    split
+    next ha =>
+      refine ⟨⟨?_, ?_, ?_, ?_, ?_, ?_, ?_, ?_, ?_, ?_, ?_⟩, ?_, ?_⟩ <;> dsimp only
+      · exact h.fifo
+      · intro i; have := h.handle_once i; simp only [hb, loopIds] at *; grind [upd_apply]
+      · intro i; have := h.stacked_once i; grind [upd_apply]
+      · intro e p hw; have := h.waiter_ok e p hw; grind [upd_apply]
+      · intro i; have := h.once i; simp only [hb, loopIds, List.count_append] at *; grind
+      · simp [ha]
+      · exact h.blocks_prev
+      · intro l p hh; cases hh
+      · intro _; exact hab.1 ha
+      · intro hh; cases hh
+      · intro _ hh; cases hh
+      · intro i; have := hnr i; grind [upd_apply]
+      · simp
+    next ha =>
+      have hbl : s.blocks = [] := by
+        by_cases hh : s.blocks = []
+        · exact hh
+        · exact absurd (hab.2 hh) ha
+      have haf : s.active = false := by simpa using ha
+      refine ⟨⟨?_, ?_, ?_, ?_, ?_, ?_, ?_, ?_, ?_, ?_, ?_⟩, ?_, ?_⟩ <;> dsimp only
+      · exact h.fifo
+      · intro i; have := h.handle_once i; simp only [hb, loopIds] at *; grind [upd_apply]
+      · intro i; have := h.stacked_once i; grind [upd_apply]
+      · intro e p hw; have := h.waiter_ok e p hw; grind [upd_apply]
+      · intro i; have := h.once i; simp only [hb, loopIds, List.count_append] at *; grind
+      · simp
+      · exact h.blocks_prev
+      · intro l p hh; cases hh; simp [haf, hbl]
+      · intro hh; cases hh
+      · intro hh; cases hh
+      · intro _ hh; cases hh
+      · intro i; have := hnr i; grind [upd_apply]
+      · simp
+  next => exact h
+
 theorem inv_mainEnter (s : State) (h : Inv s) (hc : s.cur = none) : Inv (mainEnter s) := by
   obtain ⟨hb, hcl, hnr, hab⟩ := main_facts h hc
   unfold mainEnter
@@ -801,6 +876,8 @@ theorem inv_step (s : State) (a : Act) (h : Inv s) : Inv (step s a) := by
     | parkNext => exact inv_coParkNext s c h hc
     | pause => exact inv_coPause s c h hc
     | start d fut => exact inv_coStart s c d fut h hc
+    | gnext d => exact inv_coGnext s c d h hc
+    | gyield => exact inv_coGyield s c h hc
     | call d => exact inv_coCall s c d h hc
     | join d => exact inv_coJoin s c d h hc
     | fin => exact inv_coFin s c h hc
@@ -820,6 +897,8 @@ theorem inv_step (s : State) (a : Act) (h : Inv s) : Inv (step s a) := by
     | hopCur => exact h
     | fwait => exact h
     | start d fut => exact inv_mainStart s d h hc
+    | gnext d => exact inv_mainGnext s d h hc
+    | gyield => exact h
     | enter => exact inv_mainEnter s h hc
     | leave => exact inv_mainLeave s h hc
     | park => exact h
@@ -891,6 +970,12 @@ theorem grows_step (s : State) (a : Act) : Grows s (step s a) := by
       simp only [coStep, coPause]
       split <;> simp [Grows]
     | start d fut => simp only [coStep, coStart]; split <;> simp [Grows]
+    | gnext d => simp only [coStep, coGnext]; split <;> simp [Grows]
+    | gyield =>
+      simp only [coStep, coGyield]
+      split
+      · exact grows_settle_of s _ rfl rfl
+      · exact grows_refl s
     | call d => simp only [coStep, coCall]; split <;> simp [Grows]
     | join d =>
       simp only [coStep, coJoin]
@@ -940,6 +1025,12 @@ theorem grows_step (s : State) (a : Act) : Grows s (step s a) := by
       split
       · split <;> simp [Grows]
       · exact grows_refl s
+    | gnext d =>
+      simp only [mainStep, mainGnext]
+      split
+      · split <;> simp [Grows]
+      · exact grows_refl s
+    | gyield => exact grows_refl s
     | enter => simp [mainStep, mainEnter, Grows]
     | leave =>
       simp only [mainStep, mainLeave]
